@@ -114,6 +114,7 @@ def required(tier):
         "cli_af0_records": 700, "cli_records_after_unusable": 8000, "cli_dead_allele_records": 2000, "cli_trailing_dead_records_mcmc": 400,
         "cli_gt_checked": 30000, "cli_posterior_zero_checked": 15000, "cli_gp_zero_checked": 6000, "cli_refmasked_records": 5000,
         "cli_all_alts_removed_records": 3000, "cli_wellformed_checked": 11000, "cli_runs_inbred": 600,
+        "fn_exact_dead_allele_cases": 3000, "fn_exact_dead_allele_cases_inbred": 2000,
     }
 
 
@@ -420,6 +421,62 @@ def note_boundary(col, prefix, filt, tok):
             col.count(prefix + ("equal_text_inexact_f32" if f32_inexact(tok) else "equal_text_exact_f32"))
 
 
+def exact_dead_allele_check(locus, rec, tag, filt, col):
+    """What call-exact computes from this locus object when the READS favour a dead allele (prior exactly 0 or masked
+    reference): the exact-caller functions are driven with the locus's own haplotypes and frequencies and with many
+    copies of a read matching the dead allele.  Every genotype holding a dead allele must get posterior EXACTLY 0 - a leak
+    far below the 3 decimals of the VCF is still a leak - for inbreeding 0 and > 0, and the mode must avoid the allele."""
+    from mchap.calling.exact import genotype_likelihoods, genotype_posteriors, posterior_mode
+
+    f = np.asarray(locus.frequencies, dtype=float)
+    if f.ndim != 1 or len(f) < 2 or np.any(np.isnan(f)) or not np.any(f == 0) or not np.any(f > 0):
+        return []
+    haps = np.asarray(locus.encode_haplotypes())
+    if haps.ndim != 2 or haps.shape[1] == 0 or len(haps) != len(f) or len(haps) > 6:
+        return []
+    dead = [int(i) for i in np.where(f == 0)[0]]
+    n_alleles = [int(x) for x in locus.count_alleles()]
+    width = max(n_alleles)
+    what = "%s with %s" % (rec_text(rec), opt_text(tag, filt))
+    found = []
+    ploidy = 2 + 2 * (len(rec["alts"]) % 2)
+    # one read per dead allele, each standing for many identical reads
+    reads = np.full((len(dead), haps.shape[1], width), np.nan)
+    for r_, d in enumerate(dead):
+        for j in range(haps.shape[1]):
+            reads[r_, j, : n_alleles[j]] = 0.001 / max(1, n_alleles[j] - 1)
+            reads[r_, j, int(haps[d, j])] = 0.999
+    counts = np.full(len(dead), 150, dtype=np.int64)
+    gs = M.genotypes_vcf_order(len(haps), ploidy)
+    bad_idx = [k for k, g in enumerate(gs) if any(a in dead for a in g)]
+    for F in (0.0, 0.1, 0.5):
+        col.count("fn_exact_dead_allele_cases")
+        if F > 0:
+            col.count("fn_exact_dead_allele_cases_inbred")
+        try:
+            llks = genotype_likelihoods(reads=reads, read_counts=counts, haplotypes=haps, ploidy=ploidy)
+            probs = np.asarray(genotype_posteriors(log_likelihoods=llks, ploidy=ploidy, n_alleles=len(haps), inbreeding=F, frequencies=f))
+            res = posterior_mode(reads=reads, read_counts=counts, haplotypes=haps, ploidy=ploidy, inbreeding=F, frequencies=f,
+                                 return_support_prob=True, return_posterior_frequencies=True, return_posterior_occurrence=True)
+        except Exception as ex:  # noqa: BLE001
+            found.append(("exact-caller-raised-on-zero-prior-allele", "%s: %s (ploidy %d, inbreeding %r; %s)" % (type(ex).__name__, str(ex)[:200], ploidy, F, what)))
+            break
+        leak = float(np.max(probs[bad_idx])) if bad_idx else 0.0
+        mode = [int(a) for a in res[0]]
+        afp = np.asarray(res[-2], dtype=float)
+        if leak != 0.0 or np.any(np.isnan(probs)):
+            found.append(("dead-allele-has-posterior", "genotype_posteriors gives a genotype holding a zero-prior allele probability %.3g (must be exactly 0; alleles %s dead, frequencies %s, ploidy %d, inbreeding %r, 150 reads matching each dead allele; %s)"
+                          % (leak, dead, np.round(f, 5).tolist(), ploidy, F, what)))
+            break
+        if any(a in dead for a in mode):
+            found.append(("dead-allele-in-genotype", "posterior_mode calls %s which uses a zero-prior allele (dead %s, ploidy %d, inbreeding %r; %s)" % (mode, dead, ploidy, F, what)))
+            break
+        if np.any(afp[dead] != 0.0):
+            found.append(("dead-allele-has-posterior", "posterior_mode reports allele frequencies %s for dead alleles %s (ploidy %d, inbreeding %r; %s)" % (afp[dead].tolist(), dead, ploidy, F, what)))
+            break
+    return found
+
+
 def fn_combos(rng, rec):
     """(tag, filt) pairs for one record: every field x every operator with an own-token threshold, some others."""
     out = [(None, None), ("AFP", None), ("WT", None), ("RC", None)]
@@ -457,6 +514,8 @@ def run_fn_records(recs, combos_for, col, wd, name):
                 except Exception as ex:  # noqa: BLE001
                     exc = ex
                 found = fn_check(rec, tag, filt, locus, exc, col)
+                if not found and exc is None:
+                    found = found + exact_dead_allele_check(locus, rec, tag, filt, col)
                 col.case({"k": "fn", "r": rec_text(rec), "t": tag, "f": fs}, nontrivial=bool(rec["alts"]) and (tag is not None or filt is not None))
                 seen = set()
                 for mech, msg in found:
